@@ -389,7 +389,23 @@ func waiterExtra(t *tr) string {
 			if ok {
 				u, isU := as.Rhs[0].(*ast.UnaryExpr)
 				ok = isU
-				if ok {
+				if call, isCall := as.Rhs[0].(*ast.CallExpr); isCall && nx.src(call.Fun) == "Acquire" && len(call.Args) == 1 {
+					// sample := Acquire(T): the pooled constructor; it must build Sample{timeStamp: …, tags: <its parameter>}
+					if aq := findFunc(ns, "Acquire"); aq != nil && aq.Type.Params != nil && len(aq.Type.Params.List) == 1 && len(aq.Type.Params.List[0].Names) == 1 {
+						param := aq.Type.Params.List[0].Names[0].Name
+						ast.Inspect(aq.Body, func(n ast.Node) bool {
+							if cl, isCl := n.(*ast.CompositeLit); isCl && nx.src(cl.Type) == "Sample" {
+								for _, el := range cl.Elts {
+									if kv, isKv := el.(*ast.KeyValueExpr); isKv && nx.src(kv.Key) == "tags" && nx.src(kv.Value) == param {
+										tags = nx.src(call.Args[0])
+										ok = true
+									}
+								}
+							}
+							return true
+						})
+					}
+				} else if ok {
 					cl, isCl := u.X.(*ast.CompositeLit)
 					ok = isCl && nx.src(cl.Type) == "Sample"
 					if ok {
@@ -905,16 +921,20 @@ func waiterCliDiscardDefault(t *tr) string {
 		t.errs = append(t.errs, "cli.readConfig not found")
 		return ""
 	}
-	type hit struct{ getKey, setKey, lookKey, putKey, val, decodeAfter string }
+	type hit struct{ getKey, setKey, lookKey, putKey, val, decodeAfter, guard string }
 	var hits []hit
 	for k, s := range rc.Body.List {
 		outer, ok := s.(*ast.IfStmt)
 		if !ok || outer.Init == nil || !strings.Contains(src(outer.Init), "v.Get(") {
 			continue
 		}
-		h := hit{}
+		h := hit{guard: "<other>:" + src(outer.Cond)}
 		// pools, ok := v.Get("pools").([]any)
 		if as, ok := outer.Init.(*ast.AssignStmt); ok && len(as.Rhs) == 1 {
+			if len(as.Lhs) == 2 && src(outer.Cond) == src(as.Lhs[1]) {
+				// the block runs whenever the section list has the expected type: no further condition
+				h.guard = "type-assertion-only"
+			}
 			if ta, ok := as.Rhs[0].(*ast.TypeAssertExpr); ok {
 				if call, ok := ta.X.(*ast.CallExpr); ok && src(call.Fun) == "v.Get" && len(call.Args) == 1 {
 					h.getKey = src(call.Args[0])
@@ -976,6 +996,12 @@ func waiterCliDiscardDefault(t *tr) string {
 	b.WriteString("def cliPoolsGetKey : String := " + strconv.Quote(unq(h.getKey)) + "\n")
 	b.WriteString("def cliPoolsSetKey : String := " + strconv.Quote(unq(h.setKey)) + "\n")
 	b.WriteString("def cliDecodesAfterDefault : Bool := " + map[bool]string{true: "true", false: "false"}[h.decodeAfter != ""] + "\n")
+	b.WriteString("/-- the condition under which the default block runs at all (besides the type assertion of the section list) -/\n")
+	b.WriteString("def cliDefaultGuard : String := " + strconv.Quote(h.guard) + "\n")
+	// the per-section `if _, ok := poolMap[KEY]; !ok` must be the only condition inside the loop: an enclosing `if` other than the
+	// type assertion of the section would make the default depend on something else
+	b.WriteString("/-- conditions (other than the map type assertion `continue`) that enclose the per-section default inside the loop -/\n")
+	b.WriteString("def cliDefaultInnerGuards : List String := [" + strings.Join(waiterCliInnerGuards(rc, src), ", ") + "]\n")
 	return b.String()
 }
 
@@ -1077,4 +1103,54 @@ func waiterSortStrings(l []string) {
 			l[j], l[j-1] = l[j-1], l[j]
 		}
 	}
+}
+
+// waiterCliInnerGuards lists the conditions of if statements that enclose the `poolMap[KEY] = VALUE` assignment inside the range
+// loop of the default block, except the lookup `if _, ok := poolMap[KEY]; !ok` itself.
+func waiterCliInnerGuards(rc *ast.FuncDecl, src func(ast.Node) string) []string {
+	var out []string
+	var walk func(n ast.Node, guards []string, inLoop bool)
+	walk = func(n ast.Node, guards []string, inLoop bool) {
+		switch v := n.(type) {
+		case *ast.RangeStmt:
+			for _, s := range v.Body.List {
+				walk(s, nil, true)
+			}
+			return
+		case *ast.IfStmt:
+			if inLoop {
+				g := append(append([]string{}, guards...), src(v.Cond))
+				for _, s := range v.Body.List {
+					if as, ok := s.(*ast.AssignStmt); ok && len(as.Lhs) == 1 {
+						if _, isIx := as.Lhs[0].(*ast.IndexExpr); isIx && (src(as.Rhs[0]) == "true" || src(as.Rhs[0]) == "false") {
+							// the put: every enclosing condition but the innermost (the lookup) is a guard; the lookup may be
+							// strengthened too (`!ok && …`)
+							for _, c := range guards {
+								out = append(out, strconv.Quote(c))
+							}
+							if init, ok := v.Init.(*ast.AssignStmt); !ok || len(init.Lhs) != 2 || src(v.Cond) != "!"+src(init.Lhs[1]) {
+								out = append(out, strconv.Quote(src(v.Cond)))
+							}
+						}
+					}
+					walk(s, g, true)
+				}
+				if v.Else != nil {
+					walk(v.Else, g, true)
+				}
+				return
+			}
+			for _, s := range v.Body.List {
+				walk(s, guards, inLoop)
+			}
+			return
+		case *ast.BlockStmt:
+			for _, s := range v.List {
+				walk(s, guards, inLoop)
+			}
+			return
+		}
+	}
+	walk(rc.Body, nil, false)
+	return out
 }
